@@ -1156,3 +1156,106 @@ Theorem zone_step_exact n : (0 < n)%nat -> forall rs o,
   (gtarget o < length rs)%nat ->
   step_spec (zone_dom n) (zwf n) gamma rs o (gget (zone_dom n) (gstep (zone_dom n) rs o) (gtarget o)).
 Proof. intros H. exact (gstep_exact (zone_dom n) (zwf n) gamma _ _ _ (zone_exact_dom n H)). Qed.
+
+(* ------------------------------------------------------------------ the same facts for arbitrary node valuations *)
+(* (used by the octagon proofs, where the valuation of the nodes is not [val s]) *)
+Definition ggam (g : nat -> Z) (z : zone) : Prop :=
+  match z with ZBot => False | ZM m => gfun (mget m) g end.
+
+Lemma gfun_tab n f g : support n f -> (gfun (mget (tab n f)) g <-> gfun f g).
+Proof.
+  intros S. unfold gfun. split; intros H i j k E.
+  - apply H. rewrite tab_ext; auto.
+  - apply H. rewrite tab_ext in E; auto.
+Qed.
+
+Lemma add_edge_m_spec_g n m a b w :
+  mwf n m -> (a < n)%nat -> (b < n)%nat ->
+  zwf n (add_edge_m n m (a, b, w)) /\
+  (forall g, ggam g (add_edge_m n m (a, b, w)) <-> (gfun (mget m) g /\ g b - g a <= w)).
+Proof.
+  intros W Ha Hb. split; [apply (add_edge_m_spec n m a b w W Ha Hb)|].
+  destruct W as [S [D C]]. unfold add_edge_m.
+  destruct (wleb (Some 0) (wadd (Some w) (mget m b a))) eqn:E; simpl.
+  - apply wleb_spec in E. intros g. fold (upd_f (mget m) a b w).
+    rewrite gfun_tab by (apply upd_support; auto). split.
+    + intros G. apply (upd_gfun_inv (mget m) a b w); auto.
+    + intros [G H]. apply upd_gfun; auto.
+  - intros g. split; [tauto|]. intros [G H].
+    assert (X : wleb (Some 0) (wadd (Some w) (mget m b a)) = true); [|congruence].
+    apply wleb_spec. pose proof (G b a) as G1.
+    destruct (mget m b a) as [k|]; simpl; auto. specialize (G1 _ eq_refl). lia.
+Qed.
+
+Lemma add_edges_spec_g n es : forall z,
+  zwf n z -> Forall (edge_in n) es ->
+  zwf n (add_edges n z es) /\
+  (forall g, ggam g (add_edges n z es) <->
+             (ggam g z /\ Forall (fun e => let '(a, b, w) := e in g b - g a <= w) es)).
+Proof.
+  induction es as [|[[a b] w] r IH]; intros z W F; simpl.
+  - split; auto. intros g. split; [intros; split; auto|tauto].
+  - inversion F as [|? ? Hab F']; subst. destruct Hab as [Ha Hb].
+    assert (X : zwf n (add_edge n z (a, b, w)) /\
+                forall g, ggam g (add_edge n z (a, b, w)) <-> (ggam g z /\ g b - g a <= w)).
+    { destruct z as [|m]; simpl; [split; auto; intros; tauto|]. apply add_edge_m_spec_g; auto. }
+    destruct X as [W1 G1]. destruct (IH _ W1 F') as [W2 G2]. split; auto.
+    intros g. rewrite G2, G1. split.
+    + intros [[A B] Cc]. split; auto.
+    + intros [A B]. inversion B; subst. tauto.
+Qed.
+
+Theorem mwf_inhabited_g n m : mwf n m -> exists g, gfun (mget m) g.
+Proof.
+  intros W. destruct W as [S [D C]].
+  destruct (solution_on (mget m) C (mwf_diag_nonneg n m (conj S (conj D C))) (seq 0 n) (seq_NoDup n 0))
+    as [g G].
+  exists g. intros i j k E.
+  destruct (Nat.lt_ge_cases i n), (Nat.lt_ge_cases j n);
+    try (rewrite S in E by lia; discriminate).
+  apply (G i j k); auto; apply in_seq; lia.
+Qed.
+
+Theorem entry_attained_g n m i j k : mwf n m -> (i < n)%nat -> (j < n)%nat ->
+  mget m i j = Some k -> exists g, gfun (mget m) g /\ g j - g i = k.
+Proof.
+  intros W Hi Hj E.
+  destruct (add_edge_m_spec_g n m j i (- k) W Hj Hi) as [W1 G1].
+  unfold add_edge_m in *. rewrite E in *. simpl in *.
+  replace (0 <=? - k + k) with true in * by (symmetry; apply Z.leb_le; lia). simpl in *.
+  destruct (mwf_inhabited_g _ _ W1) as [g G]. exists g. apply (G1 g) in G. destruct G as [G H].
+  split; auto. specialize (G _ _ _ E). lia.
+Qed.
+
+Theorem entry_unbounded_g n m i j K : mwf n m -> (i < n)%nat -> (j < n)%nat ->
+  mget m i j = None -> exists g, gfun (mget m) g /\ g j - g i >= K.
+Proof.
+  intros W Hi Hj E.
+  destruct (add_edge_m_spec_g n m j i (- K) W Hj Hi) as [W1 G1].
+  unfold add_edge_m in *. rewrite E in *. simpl in *.
+  destruct (mwf_inhabited_g _ _ W1) as [g G]. exists g. apply (G1 g) in G. destruct G as [G H].
+  split; auto. lia.
+Qed.
+
+Lemma entry_le_g n a c : mwf n a -> support n (mget c) ->
+  (forall g, gfun (mget a) g -> gfun (mget c) g) -> forall i j, wle (mget a i j) (mget c i j).
+Proof.
+  intros W S H i j. destruct (mget c i j) as [k|] eqn:E; [|destruct (mget a i j); exact I].
+  assert (Hi : (i < n)%nat). { destruct (Nat.lt_ge_cases i n); auto. rewrite S in E by lia. discriminate. }
+  assert (Hj : (j < n)%nat). { destruct (Nat.lt_ge_cases j n); auto. rewrite S in E by lia. discriminate. }
+  destruct (mget a i j) as [ka|] eqn:A; simpl.
+  - destruct (entry_attained_g n a i j ka W Hi Hj A) as [g [G X]].
+    specialize (H g G _ _ _ E). lia.
+  - destruct (entry_unbounded_g n a i j (k + 1) W Hi Hj A) as [g [G X]].
+    specialize (H g G _ _ _ E). lia.
+Qed.
+
+(* closed matrices with the same solutions are equal entry by entry *)
+Lemma mwf_unique n a c : mwf n a -> mwf n c ->
+  (forall g, gfun (mget a) g <-> gfun (mget c) g) -> forall i j, mget a i j = mget c i j.
+Proof.
+  intros Wa Wc H i j.
+  pose proof (entry_le_g n a c Wa (proj1 Wc) (fun g => proj1 (H g)) i j) as L1.
+  pose proof (entry_le_g n c a Wc (proj1 Wa) (fun g => proj2 (H g)) i j) as L2.
+  destruct (mget a i j), (mget c i j); simpl in *; try tauto. f_equal. lia.
+Qed.
